@@ -9,7 +9,7 @@ from harness import gridprobes as G
 
 PROP = "C13"
 TARGETS = ["IbicusModel.Props.C13"]
-GEN = []
+GEN = ["GridDispatch"]
 
 ERRNAME = G.ERRNAME
 
@@ -67,6 +67,12 @@ def run(tier, res, force_search=False):
         "__str__ that raises); classes derived directly from BaseException (KeyboardInterrupt, SystemExit, GeneratorExit) are not caught by the code's "
         "`except Exception` by design and are out of scope; in the Lean model the error value is abstract (any type ε)",
         "the non-failing cells' results are compared with a clean run on the same data without the planted failure (cell independence: C05)",
+        "RUNTIME-ONLY clauses (oracle on the real code only): what an exception object looks like (arguments, __str__, picklability) — the model's error value is "
+        "abstract, so a handler that inspects the exception cannot be exhibited; logging; state that a failing location leaves OUTSIDE the arguments of the model "
+        "(e.g. a cache on a helper object filled while iterating) — the logic part is modelled as instance state: failsafe_isolates_chunked / _stateful_serial assume "
+        "PureSt (also on failure), Example.damaging shows the failure mode, and the running-window failing-subset runs decide it for the real debiasers",
+        "tier A: the catch wrapper's statements (caught class Exception, scalar np.nan, bare raise) and the failsafe keyword at all four call sites are regenerated "
+        "from the source (Gen/GridDispatch.lean = Model/GridDispatch.lean)",
     ]
     lean_ok = C.lean_phase(res, PROP, GEN, TARGETS)
     problems, lines, expect, par_expect = [], [], [], []
@@ -184,6 +190,43 @@ def run(tier, res, force_search=False):
     except (C.DriverError, Exception) as ex:  # noqa: BLE001
         mismatches.append({"op": "driver", "case": {}, "impl": "", "model": f"{type(ex).__name__}: {str(ex)[:400]}"})
     if mismatches:
+        res.tie_broken.append(f"correspondence DrvGrid: {len(mismatches)} mismatches, first: {mismatches[0]}")
+        boost = True
+
+    # ---- chunked pool + instance state (Model.Grid.applyParallelSt / chunkTask): the counting probe (not pure) with failing cells;
+    #      the real pool (chunk size read off the real MapResult) vs the model under a random completion order of the chunks
+    st_lines, st_expect = [], []
+    for nx, ny, p_ in [(3, 3, 1), (2, 3, 1), (3, 3, 2)][: (2 if tier == "quick" and not boost else 3)]:
+        n_ = nx * ny
+        kch = G.real_default_chunksizes(p_, [n_])[n_]
+        cells = [(i, j) for i in range(nx) for j in range(ny)]
+        nprs = np.random.RandomState(rng.randint(0, 2**31 - 1))
+        To, Th, Tf = rng.sample(range(1, 5), 3)
+        for S in [tuple(rng.sample(cells, r)) for r in (1, 2, 4)]:
+            obs, hist, fut = (G.rand_data(nprs, T, nx, ny, np.float64) for T in (To, Th, Tf))
+            for n, c in enumerate(S):
+                fut[0, c[0], c[1]] = G.ERR_CYCLE[n % len(G.ERR_CYCLE)]
+            for fs in (True, False):
+                for mode in ("serial", "par"):
+                    deb = G.CountingProbe(calls=0)
+                    r = G.run_apply(deb, obs, hist, fut, parallel=(mode == "par"), nproc=p_, failsafe=fs)
+                    sched = list(range(len(G.real_chunks(kch, n_))))
+                    rng.shuffle(sched)
+                    st_lines.append(f"gridst {mode} {int(fs)} {nx} {ny} {To} {Th} {Tf} {C.ilist(obs.ravel())} {C.ilist(hist.ravel())} {C.ilist(fut.ravel())} "
+                                    f"0 {kch} {C.ilist(sched) if mode == 'par' else '-'}")
+                    classes = ["error " + ERRNAME[int(fut[0, c[0], c[1]])] for c in cells if c in S]
+                    st_expect.append(("gridst-" + mode, dict(what="counting-probe", nx=nx, ny=ny, S=[list(c) for c in S], failsafe=fs, nr_processes=p_, chunksize=kch, sched=sched),
+                                      G.canon(r) + (f" state {deb.calls}" if r[0] == "ok" else ""), (classes if (mode == "par" and not fs) else None)))
+                    res.count(("counting", nx, ny, p_, S, fs, mode), True)
+    try:
+        out = C.run_driver("DrvGrid", st_lines)
+        for (what, case, exp, anyof), got in zip(st_expect, out):
+            res.cov["traces_validated_against_impl"] += 1
+            if not ((exp in anyof and got in anyof) if anyof is not None else exp == got):
+                mismatches.append({"op": what, "case": case, "impl": exp[:300], "model": got[:300]})
+    except (C.DriverError, Exception) as ex:  # noqa: BLE001
+        mismatches.append({"op": "driver", "case": {}, "impl": "", "model": f"{type(ex).__name__}: {str(ex)[:400]}"})
+    if mismatches and not any("correspondence DrvGrid" in t for t in res.tie_broken):
         res.tie_broken.append(f"correspondence DrvGrid: {len(mismatches)} mismatches, first: {mismatches[0]}")
         boost = True
 
